@@ -271,7 +271,7 @@ func (rr *regenRunner) eval(rc *regenCase, id string, chk *Checker, offsetsPer i
 	if err := writeFiles(dirR, regenFiles(rc.V1, rc.SameLine)); err != nil {
 		return nil, err
 	}
-	r1, err := gd.Run(c, rr.bin, filepath.Join(dirR, "p"), []string{"."}, "", 0)
+	r1, err := runJudged(c, rr.bin, filepath.Join(dirR, "p"), []string{"."}, "", func() error { os.Remove(filepath.Join(dirR, "p", "derived.gen.go")); return nil })
 	if err != nil {
 		return nil, err
 	}
@@ -287,7 +287,7 @@ func (rr *regenRunner) eval(rc *regenCase, id string, chk *Checker, offsetsPer i
 	if err := writeFiles(dirS, regenFiles(rc.V2, rc.SameLine)); err != nil {
 		return nil, err
 	}
-	rs, err := gd.Run(c, rr.bin, filepath.Join(dirS, "p"), []string{"."}, "", 0)
+	rs, err := runJudged(c, rr.bin, filepath.Join(dirS, "p"), []string{"."}, "", func() error { os.Remove(filepath.Join(dirS, "p", "derived.gen.go")); return nil })
 	if err != nil {
 		return nil, err
 	}
@@ -354,7 +354,13 @@ func (rr *regenRunner) eval(rc *regenCase, id string, chk *Checker, offsetsPer i
 			}
 		}
 		trace := filepath.Join(root, "trace.ndjson")
-		r2, err := gd.Run(c, rr.bin, filepath.Join(dirR, "p"), []string{"."}, trace, 0)
+		r2, err := runJudged(c, rr.bin, filepath.Join(dirR, "p"), []string{"."}, trace, func() error {
+			if v.absent {
+				os.Remove(derR)
+				return nil
+			}
+			return os.WriteFile(derR, v.content, 0644)
+		})
 		if err != nil {
 			return nil, err
 		}
@@ -948,7 +954,7 @@ func c07Flagged(c *core.Ctx, bin string) (int, int, error) {
 					return
 				}
 				args := append(append([]string{}, s2.Flags...), ".")
-				if _, err := gd.Run(c, bin, filepath.Join(dirR, "p"), args, "", 0); err != nil {
+				if _, err := runJudged(c, bin, filepath.Join(dirR, "p"), args, "", nil); err != nil {
 					fail(err)
 					return
 				}
@@ -967,12 +973,12 @@ func c07Flagged(c *core.Ctx, bin string) (int, int, error) {
 					return
 				}
 				trace := filepath.Join(root, "trace.ndjson")
-				r2, err := gd.Run(c, bin, filepath.Join(dirR, "p"), args, trace, 0)
+				r2, err := runJudged(c, bin, filepath.Join(dirR, "p"), args, trace, nil)
 				if err != nil {
 					fail(err)
 					return
 				}
-				rs, err := gd.Run(c, bin, filepath.Join(dirS, "p"), args, "", 0)
+				rs, err := runJudged(c, bin, filepath.Join(dirS, "p"), args, "", nil)
 				if err != nil {
 					fail(err)
 					return
